@@ -587,7 +587,13 @@ class NAryFunctionRelation(AbstractBaseRelation, SimpleRepr):
             else:
                 slice_f = functools.partial(self._f, **slicing_dict)
 
-            return NAryFunctionRelation(slice_f, remaining_vars, name=self.name)
+            sliced = NAryFunctionRelation(slice_f, remaining_vars, name=self.name)
+            # keep the variable -> argument mapping of this relation: the order of
+            # the arguments of slice_f is not the order of remaining_vars
+            sliced._var_mapping = {
+                v.name: self._var_mapping[v.name] for v in remaining_vars
+            }
+            return sliced
 
     def set_value_for_assignment(self, assignment, relation_value):
         raise NotImplementedError(
